@@ -47,17 +47,17 @@ public:
 
    HtModel(unsigned partMask, int ss, bool th, int lay, bool ces) : mask(partMask), startSet(ss), thorough(th), layout(lay), checkEveryStep(ces)
    {
-      const unsigned S = M_SMALL | M_FULL, C = M_CORE | M_SMALL | M_FULL, B = M_BOUND, W = M_BWIDE, H = M_HUGE, O = M_ORD, F = M_FULL, L = M_ALIAS;
+      const unsigned S = M_SMALL | M_FULL, C = M_CORE | M_SMALL | M_FULL, B = M_BOUND, W = M_BWIDE, H = M_HUGE, D = M_HUGED, O = M_ORD, F = M_FULL, L = M_ALIAS;
       // keys: k0 (head), k3 (second), k1 (middle), k2 (tail) are present in the populated start states; k4, k5 are absent; k6 is never present
-      A(C | W | H | O | L, PUT, 0, 0, 5);          // existing key (head), new value
-      A(C | W | H | O | L, PUT, 5, 0, 3);          // new key (forces a regrow when the table is full)
+      A(C | W | H | O | L | D, PUT, 0, 0, 5);          // existing key (head), new value
+      A(C | W | H | O | L | D, PUT, 5, 0, 3);          // new key (forces a regrow when the table is full)
       A(S | O, PUT, 4, 0, 2);
       A(F | O, PUT, 3, 0, 1);
       A(S | W | O, PUT_PREV, 1, 0, 4);
       A(C | W | H, PUT_FRONT, 2, 0, 2);            // existing tail -> front
       A(S | W, PUT_FRONT, 4, 0, 1);                // new key at front
       A(S | W, PUT_BACK, 0, 0, 3);
-      A(C | W | H, PUT_BEFORE, 4, 1, 2);           // new key before the middle
+      A(C | W | H | D, PUT_BEFORE, 4, 1, 2);           // new key before the middle
       A(S | W, PUT_BEFORE, 1, 0, 2);               // existing key moved
       A(F, PUT_BEFORE, 3, 3, 1);                   // before itself: documented to act like Put
       A(S | W, PUT_BEHIND, 4, 0, 1);
@@ -76,24 +76,24 @@ public:
       A(F | O, PUTANDGET, 3, 0, 2);
       A(S | W | O, PUTORREMOVE, 1, 0, 0);          // value == default -> removes
       A(F | O, PUTORREMOVE, 4, 0, 3);
-      A(S | W | H | O | L | B, PUT_SELFVAL, 4);        // value argument aliases the table's own storage (guarded in PutAux)
+      A(S | W | H | O | L | B | D, PUT_SELFVAL, 4);        // value argument aliases the table's own storage (guarded in PutAux)
       A(C | W | O, PUT_TABLE);
       A(S | W, GET_MTF, 1);
       A(S | W, GET_MTB, 0);
       A(C | W | H | O | L, REMOVE, 0);
-      A(C | W | H | O, REMOVE, 1);
+      A(C | W | H | O | D, REMOVE, 1);
       A(C | W | H | O, REMOVE, 2);
       A(F, REMOVE, 3);
       A(F | O, REMOVE_RET, 1);
       A(F | O, REMOVE_DEF, 4);
       A(C | W | O, REMOVE_FIRST);
-      A(C | W | H | O, REMOVE_LAST);
+      A(C | W | H | O | D, REMOVE_LAST);
       A(F | O, REMOVE_FIRST_KV);
       A(F | O, REMOVE_LAST_K);
       A(S | W | O, REMOVE_TABLE);
       A(S | W | O, REMOVE_SELF);
-      A(C | W | H | O, INTERSECT);
-      A(C | W | H, MTF, 1);
+      A(C | W | H | O | D, INTERSECT);
+      A(C | W | H | D, MTF, 1);
       A(S | W, MTF, 2);
       A(C | W | H, MTB, 0);
       A(S | W, MTB, 1);
@@ -103,7 +103,7 @@ public:
       A(F, MBEFORE, 0, 6);
       A(C | W, MBEHIND, 0, 2);
       A(S | W, MBEHIND, 1, 0);
-      A(S | W, MPOS, 0, P1);
+      A(C | W, MPOS, 0, P1);
       A(C | W | H, MPOS, 1, PMID);
       A(F, MPOS, 2, PSIZE);
       A(S | W, MPOS, 2, P0);
@@ -113,18 +113,18 @@ public:
       A(O, REPOSITION, 1);
       A(C | W | O, ENSURE_DOUBLE);
       A(F | W | O, ENSURE_CANPUT);
-      A(C | W | H | O, SHRINK);
+      A(C | W | H | O | D, SHRINK);
       A(F | W | O | B, SHRINK1);
       A(F | W | B, ENSURE_SHRINK);
-      A(C | W | H | O, CLEAR);
+      A(C | W | H | O | D, CLEAR);
       A(C | W | H | O, CLEAR_REL);
       A(C | W | H | O, ASSIGN_T_U);
       A(S | W | O, ASSIGN_U_T);
-      A(C | W | H | O, SWAP);
+      A(C | W | H | O | D, SWAP);
       A(F | W | O, MOVE_T_U);
       A(F | W | O, COPYCTOR);
       A(F | O, MOVECTOR);
-      A(C | W | H | O | L, MOVETOTABLE, 0);
+      A(C | W | H | O | L | D, MOVETOTABLE, 0);
       A(C | W | O, MOVEFROMTABLE, 4);
       A(F | W | O, COPYTOTABLE, 1);
       A(S | W | O, SWAPWITHTABLE, 1);
@@ -141,16 +141,16 @@ public:
       A(C | W | O, IT_NEW, 1, 1, -1);
       A(F | W | O, IT_NEW, 0, 0, 1);
       A(F | W | O, IT_NEW, 1, 1, 1);
-      A(C | W | H | O, IT_ADV, 0);
-      A(C | W | H | O, IT_ADV, 1);
+      A(C | W | H | O | D, IT_ADV, 0);
+      A(C | W | H | O | D, IT_ADV, 1);
       A(C | W | O, IT_RET, 0);
       A(F, IT_RET, 1);
       A(C | W | O, IT_COPY);
       A(F | W | O, IT_SWAP);
       A(F | W, IT_FLIP, 0);
-      A(C | W | H | O, IT_DEL, 0);
+      A(C | W | H | O | D, IT_DEL, 0);
       A(C | W | O, IT_DEL, 1);
-      A(C | W | H | O, DESTROY_T);
+      A(C | W | H | O | D, DESTROY_T);
       // arguments that are references into the table's own storage
       A(L, AL_PUTBEFORE, 4, 0, 2);
       A(L, AL_PUTBEHIND, 4, 0, 2);
@@ -173,7 +173,6 @@ public:
          S(7, 0, 0, -1);
          S(7, 0, 6, -1); S(7, 0, 8, -1);
          S(7, 0, 7, -1); S(7, 0, 7, 0); S(7, 0, 7, 1); S(7, 0, 7, 2);
-         if (thorough && mask != M_CORE) { S(7, 0, 6, 1); S(7, 0, 8, 0); S(7, 0, 8, 1); S(7, 0, 8, 2); }
          break;
       case SS_SMALLQ:
          S(7, 0, 0, -1); S(7, 0, 7, 1);
